@@ -310,19 +310,19 @@ def run_parse(pid, oracle):
 PENDING = "theorem files being merged (StageUri proofs pending)"
 COMMON_ASSUME = ["64-bit little-endian target (usize = u64)", "std slice/str primitives behave as documented (modelled, not verified)"]
 
-register("C01", lean=["Khttp.Props.C01"], run=run_parse("C01", oracle_c01), rule=RULE, assumptions=COMMON_ASSUME,
+register("C01", replay_with_oracle=True, lean=["Khttp.Props.C01"], run=run_parse("C01", oracle_c01), rule=RULE, assumptions=COMMON_ASSUME,
          explanation="Theorems: Request.parse / Response.parse of the model never yield panic/ub (all loops terminate within their fuel, every index, slice, "
                      "read_unaligned, get_unchecked and from_utf8_unchecked precondition holds), returned fields are ASCII infixes of the input, off <= len, "
                      "every RequestUri accessor is panic-free. SWAR block loop + tail proved equal to takeWhile via two bv_decide lane lemmas. "
                      "Oracle on the real code: no panic (catch_unwind), pointer containment of every returned slice, ASCII, accessors.")
-register("C02", lean=["Khttp.Props.C02"], run=run_parse("C02", None), rule=RULE + " Plus grammar-derived heads with the expected decoding computed by the generator.",
+register("C02", replay_with_oracle=True, lean=["Khttp.Props.C02"], run=run_parse("C02", None), rule=RULE + " Plus grammar-derived heads with the expected decoding computed by the generator.",
          assumptions=COMMON_ASSUME + ["absolute-form restricted to scheme://authority path-abempty [?query]; pct-encoding checked as '%' anywhere"],
          explanation="Theorem C02_accepts_exactly: for every RfcHead satisfying the RFC grammar predicate Wf and any tail, the model accepts render(h)++tail and reports exactly "
                      "method, target, path/query split, version, all field lines via the collection, off = |render h|. Oracle: generator-side expected decoding vs real code.")
-register("C03", lean=["Khttp.Props.C03", "Khttp.Props.C03Loop"], run=run_parse("C03", None), rule=RULE + " Plus full prefix chains (every prefix length 0..n) of corpus, well-formed and mutated heads.",
+register("C03", replay_with_oracle=True, lean=["Khttp.Props.C03", "Khttp.Props.C03Loop"], run=run_parse("C03", None), rule=RULE + " Plus full prefix chains (every prefix length 0..n) of corpus, well-formed and mutated heads.",
          assumptions=COMMON_ASSUME + ["TCP itself is outside the model; server/client read loops are covered by the CONN domain (C07/C10 checks) and Props/C03 loop theorems"],
          explanation="Theorems: accept-stability, reject-stability and 'proper prefix of an accepted head is incomplete' for both parsers. Plus C03Loop: the server's read_request loop and the client's read_response loop give the same head, body start and remaining bytes (or the same error) for every segmentation of the same stream. "
                      "Oracle: verdict monotonicity over every prefix chain on the real code; Client::exchange against a scripted origin server under many segmentations of the same response stream (cuts at every position around the blank line).")
-register("C04", lean=["Khttp.Props.C04"], run=run_parse("C04", oracle_c04), rule=RULE, assumptions=COMMON_ASSUME,
+register("C04", replay_with_oracle=True, lean=["Khttp.Props.C04"], run=run_parse("C04", oracle_c04), rule=RULE, assumptions=COMMON_ASSUME,
          explanation="Theorems: C04_accepted_is_rendered (consumed bytes = render of a WfStrict head; reported parts are that head's parts, all lines handed to the collection in order) and "
                      "C04_render_injective (unique decoding). Oracle: independent strict tokenizer on every accepted input.")
